@@ -177,4 +177,305 @@ theorem handshake_flat_holds (c : IPText) (bs : Bytes) :
       simp [agrees, HsOut.res, replyFor, u8]
       omega
 
+/-! ### The adapter -/
+
+theorem isPrefixOf_self (w : Bytes) : w.isPrefixOf w = true := by
+  have := isPrefixOf_self_append w []
+  simpa using this
+
+theorem ad_reply_cmd : isReply 7 (sendReply0 adapter.socksRepCommandNotSupported) = true := by decide
+theorem ad_reply_atyp : isReply 8 (sendReply0 adapter.socksRepAddrTypeNotSupported) = true := by decide
+
+theorem adPort_flat (w : Bytes) (host : Text) (bs : Bytes) :
+    (adPort w host).runFlat bs =
+      match bs with
+      | p1 :: p2 :: tl => (⟨.ok (host ++ [58] ++ decText (p1.toNat * 256 + p2.toNat)), w⟩, tl)
+      | _ => (⟨.fail .readPort, w⟩, []) := by
+  match bs with
+  | [] => simp [adPort, P.runFlat]
+  | [a] => simp [adPort, P.runFlat]
+  | a :: b :: tl => simp [adPort, P.runFlat, be16, byteAt]
+
+theorem adRequest_agrees (c : IPText) (pf : Profile) (hpf : pf.cmds = [1]) (w : Bytes) (off total : Nat) (bs : Bytes)
+    (ht : total = off + bs.length) :
+    agrees (adExpect c) (decodeReq pf off w bs)
+      ((adRequest c w).runFlat bs).1.out.res ((adRequest c w).runFlat bs).1.written
+      (total - ((adRequest c w).runFlat bs).2.length) = true := by
+  match bs, ht with
+  | [], ht => simp [adRequest, P.runFlat, decodeReq, agrees, AdOut.res, replyFor, ht]
+  | [_], ht => simp [adRequest, P.runFlat, decodeReq, agrees, AdOut.res, replyFor, ht]
+  | [_, _], ht => simp [adRequest, P.runFlat, decodeReq, agrees, AdOut.res, replyFor, ht]
+  | [_, _, _], ht => simp [adRequest, P.runFlat, decodeReq, agrees, AdOut.res, replyFor, ht]
+  | ver :: cmd :: rsv :: atyp :: rest, ht =>
+    have h4 : 4 ≤ (ver :: cmd :: rsv :: atyp :: rest).length := by simp
+    simp only [adRequest, P.runFlat, h4, if_true, decodeReq, List.take, List.drop, byteAt, List.getD_cons_zero,
+      List.getD_cons_succ, adapter.socks5Version, adapter.socksCmdConnect, adapter.socksAddrTypeIPv4,
+      adapter.socksAddrTypeDomain, adapter.socksAddrTypeIPv6]
+    have hcons : (ver :: cmd :: rsv :: atyp :: rest).length = rest.length + 4 := by simp
+    rw [hcons] at ht
+    rw [hcons]
+    by_cases hv' : ver.toNat ≠ 5
+    · simp [hv', P.runFlat, agrees, AdOut.res, replyFor, isPrefixOf_self, ht] <;> omega
+    have hv : ver.toNat = 5 := by omega
+    by_cases hc' : cmd.toNat ≠ 1
+    · simp [hv, hc', hpf, P.runFlat, agrees, AdOut.res, replyFor, ad_reply_cmd, isPrefixOf_self_append,
+        drop_self_append, ht] <;> omega
+    have hc : cmd.toNat = 1 := by omega
+    have hc1 : ¬ (cmd.toNat ≠ 1) := by omega
+    have hc2 : pf.cmds.contains cmd.toNat = true := by simp [hpf, hc]
+    simp only [hv, hc1, hc2, ne_eq, not_true_eq_false, if_false, not_false_eq_true]
+    by_cases ha1 : atyp.toNat = 1
+    · simp only [ha1, if_true, decAddr, P.runFlat]
+      by_cases hl : 4 ≤ rest.length
+      · have hrl : (rest.drop 4).length = rest.length - 4 := by simp
+        have htl : (rest.take 4).length = 4 := by simp; omega
+        simp only [hl, if_true, adPort_flat]
+        generalize rest.drop 4 = r at hrl
+        match r, hrl with
+        | [], hrl => simp [agrees, AdOut.res, replyFor, ht]
+        | [_], hrl => simp [agrees, AdOut.res, replyFor, ht]
+        | p1 :: p2 :: tl, hrl =>
+          simp [agrees, AdOut.res, adExpect, hostText, Addr.enc, ht] at hrl ⊢
+          omega
+      · simp [hl, agrees, AdOut.res, replyFor, ht]
+    by_cases ha4 : atyp.toNat = 4
+    · simp only [ha4, if_true, decAddr, P.runFlat, show ¬ (4 = 1) by decide, show ¬ (4 = 3) by decide, if_false]
+      by_cases hl : 16 ≤ rest.length
+      · have hrl : (rest.drop 16).length = rest.length - 16 := by simp
+        have htl : (rest.take 16).length = 16 := by simp; omega
+        simp only [hl, if_true, adPort_flat]
+        generalize rest.drop 16 = r at hrl
+        match r, hrl with
+        | [], hrl => simp [agrees, AdOut.res, replyFor, ht]
+        | [_], hrl => simp [agrees, AdOut.res, replyFor, ht]
+        | p1 :: p2 :: tl, hrl =>
+          simp [agrees, AdOut.res, adExpect, hostText, Addr.enc, ht] at hrl ⊢
+          omega
+      · simp [hl, agrees, AdOut.res, replyFor, ht]
+    by_cases ha3 : atyp.toNat = 3
+    · simp only [ha3, if_true, decAddr, P.runFlat, show ¬ (3 = 1) by decide, show ¬ (3 = 4) by decide, if_false]
+      match rest, ht with
+      | [], ht => simp [agrees, AdOut.res, replyFor, ht]
+      | l :: r0, ht =>
+        simp only [List.length_cons, Nat.le_add_left, if_true, List.take, List.drop, List.getD_cons_zero, P.runFlat]
+        by_cases hl : l.toNat ≤ r0.length
+        · have hrl : (r0.drop l.toNat).length = r0.length - l.toNat := by simp
+          have htl : (r0.take l.toNat).length = l.toNat := by simp; omega
+          simp only [hl, if_true, adPort_flat]
+          generalize r0.drop l.toNat = r at hrl
+          match r, hrl with
+          | [], hrl => simp [agrees, AdOut.res, replyFor, ht]
+          | [_], hrl => simp [agrees, AdOut.res, replyFor, ht]
+          | p1 :: p2 :: tl, hrl =>
+            simp [agrees, AdOut.res, adExpect, hostText, Addr.enc, ht] at hrl ⊢
+            omega
+        · simp [hl, agrees, AdOut.res, replyFor, ht]
+    simp [ha1, ha3, ha4, decAddr, P.runFlat, agrees, AdOut.res, replyFor, ad_reply_atyp, isPrefixOf_self_append,
+      drop_self_append, ht] <;> omega
+
+
+theorem getD_of_drop (l : Bytes) (n : Nat) (x : Byte) (r : Bytes) (h : l.drop n = x :: r) :
+    l.getD n 0 = x ∧ l.drop (n + 1) = r := by
+  constructor
+  · have : (l.drop n)[0]? = some x := by rw [h]; rfl
+    rw [List.getElem?_drop, Nat.add_zero] at this
+    simp [List.getD_eq_getElem?_getD, this]
+  · have : (l.drop n).drop 1 = r := by rw [h]; rfl
+    rw [List.drop_drop] at this
+    simpa [Nat.add_comm] using this
+
+theorem adAuth_agrees (c : IPText) (cfg : AdCfg) (pf : Profile) (hpf : pf.cmds = [1]) (w : Bytes)
+    (off total : Nat) (bs : Bytes) (ht : total = off + bs.length) :
+    agrees (adExpect c) (decodeAuth pf cfg.user cfg.pass off w bs)
+      ((adPasswordAuth c cfg w).runFlat bs).1.out.res ((adPasswordAuth c cfg w).runFlat bs).1.written
+      (total - ((adPasswordAuth c cfg w).runFlat bs).2.length) = true := by
+  match bs, ht with
+  | [], ht => simp [adPasswordAuth, P.runFlat, decodeAuth, agrees, AdOut.res, replyFor, ht]
+  | [_], ht => simp [adPasswordAuth, P.runFlat, decodeAuth, agrees, AdOut.res, replyFor, ht]
+  | ver :: ulen :: rest, ht =>
+    have h2 : 2 ≤ (ver :: ulen :: rest).length := by simp
+    have hcons : (ver :: ulen :: rest).length = rest.length + 2 := by simp
+    simp only [adPasswordAuth, P.runFlat, h2, if_true, decodeAuth, List.take, List.drop, byteAt,
+      List.getD_cons_zero, List.getD_cons_succ]
+    rw [hcons] at ht
+    rw [hcons]
+    by_cases hv : ver.toNat ≠ 1
+    · simp [hv, P.runFlat, agrees, AdOut.res, replyFor, isPrefixOf_self, ht] <;> omega
+    simp only [hv, if_false, P.runFlat]
+    by_cases hu : ulen.toNat ≤ rest.length
+    · simp only [hu, if_true]
+      have hdl : (rest.drop ulen.toNat).length = rest.length - ulen.toNat := by simp
+      cases hd : rest.drop ulen.toNat with
+      | nil =>
+        rw [hd] at hdl
+        have : rest.length < ulen.toNat + 1 := by simp at hdl; omega
+        simp [this, agrees, AdOut.res, replyFor, ht]
+      | cons x r1 =>
+        rw [hd] at hdl
+        have hlt : ¬ rest.length < ulen.toNat + 1 := by simp at hdl; omega
+        obtain ⟨hg, hdr⟩ := getD_of_drop rest ulen.toNat x r1 hd
+        simp only [hlt, if_false, List.length_cons, Nat.le_add_left, if_true, List.take, List.drop,
+          List.getD_cons_zero, hg, hdr, P.runFlat]
+        by_cases hp : x.toNat ≤ r1.length
+        · have hp' : ¬ r1.length < x.toNat := by omega
+          simp only [hp, hp', if_true, if_false]
+          by_cases hcr : rest.take ulen.toNat = cfg.user ∧ r1.take x.toNat = cfg.pass
+          · simp only [hcr, and_self, if_true]
+            have hreq := adRequest_agrees c pf hpf (w ++ [1, 0]) (off + 2 + ulen.toNat + 1 + x.toNat)
+              (total) (r1.drop x.toNat) (by simp at hdl ⊢; omega)
+            exact hreq
+          · simp only [hcr, if_false, P.runFlat]
+            simp [agrees, AdOut.res, replyFor, isPrefixOf_self_append, drop_self_append, ht] at hdl ⊢
+            omega
+        · have hp' : r1.length < x.toNat := by omega
+          simp [hp, hp', agrees, AdOut.res, replyFor, ht]
+    · have : rest.length < ulen.toNat + 1 := by omega
+      simp [hu, this, agrees, AdOut.res, replyFor, ht]
+
+/-- `handleHandshake` + `handleRequest` on a flat byte string satisfy the property. -/
+theorem adHandshake_flat_holds (c : IPText) (cfg : AdCfg) (bs : Bytes) :
+    holdsAd c cfg bs
+      (adObs bs ((adHandshakeP c cfg).runFlat bs).1 ((adHandshakeP c cfg).runFlat bs).2.length) = true := by
+  unfold holdsAd holdsNeg adObs
+  match bs with
+  | [] => simp [adHandshakeP, P.runFlat, decodeNeg, agrees, AdOut.res, replyFor]
+  | [_] => simp [adHandshakeP, P.runFlat, decodeNeg, agrees, AdOut.res, replyFor]
+  | ver :: nm :: rest =>
+    have h2 : 2 ≤ (ver :: nm :: rest).length := by simp
+    have hcons : (ver :: nm :: rest).length = rest.length + 2 := by simp
+    simp only [adHandshakeP, P.runFlat, h2, if_true, decodeNeg, List.take, List.drop, byteAt, List.getD_cons_zero,
+      List.getD_cons_succ, adapter.socks5Version, adapter.socksAuthNone, adapter.socksAuthNoMatch,
+      adapter.socksAuthPassword]
+    rw [hcons]
+    by_cases hv : ver.toNat ≠ 5
+    · simp [hv, P.runFlat, agrees, AdOut.res, replyFor]
+    by_cases hl : rest.length < nm.toNat
+    · have hl' : ¬ nm.toNat ≤ rest.length := by omega
+      have hn : ¬ nm.toNat = 0 := by omega
+      simp [hv, hn, hl, hl', P.runFlat, agrees, AdOut.res, replyFor]
+    have hl' : nm.toNat ≤ rest.length := by omega
+    simp only [hv, hl, hl', if_false, if_true, P.runFlat]
+    by_cases hn : nm.toNat = 0
+    · cases hauth : cfg.auth <;>
+        simp [hn, hauth, P.runFlat, agrees, AdOut.res, replyFor, u8]
+    simp only [hn, if_false]
+    cases hauth : cfg.auth
+    · have hany := any_toNat_eq (rest.take nm.toNat) 0 (by decide)
+      have hpf : adapterProfile cfg = ⟨0, none, [1]⟩ := by simp [adapterProfile, hauth]
+      simp only [hpf, hany, Bool.false_eq_true, if_false]
+      by_cases hm : (rest.take nm.toNat).contains (u8 0) = true
+      · simp only [hm, not_true_eq_false, if_false, if_true]
+        exact adRequest_agrees c ⟨0, none, [1]⟩ rfl [u8 5, u8 0] (2 + nm.toNat) (rest.length + 2)
+          (rest.drop nm.toNat) (by simp; omega)
+      · simp only [hm, not_false_eq_true, if_true, Bool.false_eq_true, if_false, P.runFlat]
+        simp [agrees, AdOut.res, replyFor, u8]
+        omega
+    · have hany := any_toNat_eq (rest.take nm.toNat) 2 (by decide)
+      have hpf : adapterProfile cfg = ⟨2, some (cfg.user, cfg.pass), [1]⟩ := by simp [adapterProfile, hauth]
+      simp only [hpf, hany, if_true]
+      by_cases hm : (rest.take nm.toNat).contains (u8 2) = true
+      · simp only [hm, not_true_eq_false, if_false, if_true]
+        exact adAuth_agrees c cfg ⟨2, some (cfg.user, cfg.pass), [1]⟩ rfl [u8 5, u8 2] (2 + nm.toNat)
+          (rest.length + 2) (rest.drop nm.toNat) (by simp; omega)
+      · simp only [hm, not_false_eq_true, if_true, Bool.false_eq_true, if_false, P.runFlat]
+        simp [agrees, AdOut.res, replyFor, u8]
+        omega
+
+/-! ### UDP datagram header -/
+
+theorem toNat_eq_zero (b : Byte) : b.toNat = 0 ↔ b = 0 := by
+  constructor
+  · intro h; apply UInt8.toNat_inj.mp; simpa using h
+  · intro h; subst h; rfl
+
+/-- `parseUDPHeader` returns exactly what the RFC reference assigns to the datagram. -/
+theorem parseUDP_spec (c : IPText) (data : Bytes) : (parseUDPHeader c data).res = udpExpect c data := by
+  match data with
+  | [] => simp [parseUDPHeader, udpExpect, decodeUDP, UOut.res]
+  | [_] => simp [parseUDPHeader, udpExpect, decodeUDP, UOut.res]
+  | [_, _] => simp [parseUDPHeader, udpExpect, decodeUDP, UOut.res]
+  | [_, _, _] => simp [parseUDPHeader, udpExpect, decodeUDP, UOut.res]
+  | r1 :: r2 :: frag :: atyp :: rest =>
+    have hlen : (r1 :: r2 :: frag :: atyp :: rest).length = rest.length + 4 := by simp
+    have h4 : ¬ (rest.length + 4 < 4) := by omega
+    simp only [parseUDPHeader, udpExpect, decodeUDP, hlen, h4, if_false, byteAt, List.getD_cons_zero,
+      List.getD_cons_succ, socks5.AddrIPv4, socks5.AddrDomain, socks5.AddrIPv6]
+    by_cases hf : frag ≠ 0
+    · have : frag.toNat ≠ 0 := fun h => hf ((toNat_eq_zero frag).mp h)
+      simp [hf, this, UOut.res]
+    have hf0 : frag = 0 := by simpa using hf
+    subst hf0
+    simp only [show (0 : Byte).toNat = 0 from rfl, ne_eq, not_true_eq_false, if_false, List.drop_succ_cons,
+      List.drop_zero]
+    by_cases ha1 : atyp.toNat = 1
+    · simp only [ha1, if_true, decAddr]
+      have h6 : rest.drop 6 = (rest.drop 4).drop 2 := by simp [List.drop_drop]
+      by_cases hl : 4 ≤ rest.length
+      · have hrl : (rest.drop 4).length = rest.length - 4 := by simp
+        simp only [hl, if_true, udpFinish, List.drop_succ_cons, List.drop_zero, Nat.reduceSub, h6]
+        generalize rest.drop 4 = r at hrl
+        match r, hrl with
+        | [], hrl =>
+          have : rest.length + 4 < 10 := by simp at hrl; omega
+          simp [this, UOut.res]
+        | [_], hrl =>
+          have : rest.length + 4 < 10 := by simp at hrl; omega
+          simp [this, UOut.res]
+        | p1 :: p2 :: tl, hrl =>
+          have : ¬ rest.length + 4 < 10 := by simp at hrl; omega
+          simp [this, UOut.res, hostText, be16, byteAt]
+      · have : rest.length + 4 < 10 := by omega
+        simp [this, hl, UOut.res]
+    by_cases ha4 : atyp.toNat = 4
+    · simp only [ha4, if_true, decAddr, show ¬ (4 = 1) by decide, show ¬ (4 = 3) by decide, if_false]
+      have h6 : rest.drop 18 = (rest.drop 16).drop 2 := by simp [List.drop_drop]
+      by_cases hl : 16 ≤ rest.length
+      · have hrl : (rest.drop 16).length = rest.length - 16 := by simp
+        simp only [hl, if_true, udpFinish, List.drop_succ_cons, List.drop_zero, Nat.reduceSub, h6]
+        generalize rest.drop 16 = r at hrl
+        match r, hrl with
+        | [], hrl =>
+          have : rest.length + 4 < 22 := by simp at hrl; omega
+          simp [this, UOut.res]
+        | [_], hrl =>
+          have : rest.length + 4 < 22 := by simp at hrl; omega
+          simp [this, UOut.res]
+        | p1 :: p2 :: tl, hrl =>
+          have : ¬ rest.length + 4 < 22 := by simp at hrl; omega
+          simp [this, UOut.res, hostText, be16, byteAt]
+      · have : rest.length + 4 < 22 := by omega
+        simp [this, hl, UOut.res]
+    by_cases ha3 : atyp.toNat = 3
+    · simp only [ha3, if_true, decAddr, show ¬ (3 = 1) by decide, show ¬ (3 = 4) by decide, if_false]
+      match rest with
+      | [] => simp [UOut.res]
+      | l :: r0 =>
+        have h5 : ¬ ((l :: r0).length + 4 < 5) := by simp
+        have e1 : 5 + l.toNat + 2 - 2 = l.toNat + 5 := by omega
+        have e2 : 5 + l.toNat + 2 = (l.toNat + 2) + 5 := by omega
+        have d1 : List.drop (l.toNat + 5) (r1 :: r2 :: (0 : Byte) :: atyp :: l :: r0) = List.drop l.toNat r0 := by
+          simp
+        have d2 : List.drop (5 + l.toNat) ((0 : Byte) :: atyp :: l :: r0) = (r0.drop l.toNat).drop 2 := by
+          rw [show 5 + l.toNat = l.toNat + 2 + 3 by omega]
+          simp [List.drop_drop]
+        simp only [h5, if_false, List.getD_cons_zero, List.drop_succ_cons, List.drop_zero, udpFinish, e1, d1]
+        rw [e2, d2]
+        by_cases hl : l.toNat ≤ r0.length
+        · have hrl : (r0.drop l.toNat).length = r0.length - l.toNat := by simp
+          simp only [hl, if_true]
+          generalize r0.drop l.toNat = r at hrl
+          match r, hrl with
+          | [], hrl =>
+            have : r0.length < l.toNat + 2 := by simp at hrl; omega
+            simp [this, UOut.res]
+          | [_], hrl =>
+            have : r0.length < l.toNat + 2 := by simp at hrl; omega
+            simp [this, UOut.res]
+          | p1 :: p2 :: tl, hrl =>
+            have : ¬ r0.length < l.toNat + 2 := by simp at hrl; omega
+            simp [this, UOut.res, hostText, be16, byteAt]
+        · have : r0.length < l.toNat + 2 := by omega
+          simp [this, hl, UOut.res]
+    simp [ha1, ha3, ha4, decAddr, UOut.res]
+
 end Tunnox.C20
